@@ -139,6 +139,7 @@ std::string unitsFromSmspec(RunDef& run) {
 int main(int argc, char** argv) {
     vh::Args args = vh::parse_args(argc, argv);
     vh::Reporter rep(args, "C10");
+    g_collapseTailName = args.geti("collapse_tailname", 0) != 0;
     const std::string scratch = fs::absolute(vh::scratch_dir(args)).string();
     const bool skipFmtSeek = args.geti("skip_fmt_seek", 0) != 0;
     const bool noFork = args.geti("no_fork", 0) != 0;
